@@ -386,17 +386,21 @@ pub(crate) fn burn_tag(input: &[u8], inposp: &mut usize) -> Result<(), Error> {
     Ok(())
 }
 
-pub(crate) fn burn_key_and_value(input: &[u8], inposp: &mut usize) -> Result<(), Error> {
+// Unused JSON values nested deeper than this are refused: the burn_* functions recurse,
+// and the nesting depth of untrusted input must not control the stack depth.
+const MAX_BURN_DEPTH: usize = 64;
+
+fn burn_key_and_value(input: &[u8], inposp: &mut usize, depth: usize) -> Result<(), Error> {
     verify_char(input, b'"', inposp)?;
     burn_string(input, inposp)?;
     eat_colon_with_whitespace(input, inposp)?;
-    burn_value(input, inposp)?;
+    burn_value_at(input, inposp, depth)?;
     Ok(())
 }
 
 // from the character after the open brace
 // ending on the character following the close brace
-pub(crate) fn burn_object(input: &[u8], inposp: &mut usize) -> Result<(), Error> {
+fn burn_object(input: &[u8], inposp: &mut usize, depth: usize) -> Result<(), Error> {
     loop {
         eat_whitespace_and_commas(input, inposp);
 
@@ -406,13 +410,17 @@ pub(crate) fn burn_object(input: &[u8], inposp: &mut usize) -> Result<(), Error>
             return Ok(());
         }
 
-        burn_key_and_value(input, inposp)?;
+        burn_key_and_value(input, inposp, depth)?;
     }
 }
 
 // from the character after the open bracket
 // ending on the character following the close bracket
 pub(crate) fn burn_array(input: &[u8], inposp: &mut usize) -> Result<(), Error> {
+    burn_array_at(input, inposp, 1)
+}
+
+fn burn_array_at(input: &[u8], inposp: &mut usize, depth: usize) -> Result<(), Error> {
     loop {
         eat_whitespace_and_commas(input, inposp);
 
@@ -422,11 +430,18 @@ pub(crate) fn burn_array(input: &[u8], inposp: &mut usize) -> Result<(), Error> 
             return Ok(());
         }
 
-        burn_value(input, inposp)?;
+        burn_value_at(input, inposp, depth)?;
     }
 }
 
 pub(crate) fn burn_value(input: &[u8], inposp: &mut usize) -> Result<(), Error> {
+    burn_value_at(input, inposp, 0)
+}
+
+fn burn_value_at(input: &[u8], inposp: &mut usize, depth: usize) -> Result<(), Error> {
+    if depth > MAX_BURN_DEPTH {
+        return Err(InnerError::JsonBad("JSON nested too deeply", *inposp).into());
+    }
     if *inposp >= input.len() {
         return Err(InnerError::JsonBad("Too short burning an unused JSON value", *inposp).into());
     }
@@ -437,11 +452,11 @@ pub(crate) fn burn_value(input: &[u8], inposp: &mut usize) -> Result<(), Error> 
         }
         b'[' => {
             *inposp += 1;
-            burn_array(input, inposp)?
+            burn_array_at(input, inposp, depth + 1)?
         }
         b'{' => {
             *inposp += 1;
-            burn_object(input, inposp)?
+            burn_object(input, inposp, depth + 1)?
         }
         b't' => burn_true(input, inposp)?,
         b'f' => burn_false(input, inposp)?,
